@@ -19,7 +19,10 @@ import (
 
 	"github.com/Oneledger/protocol/action"
 	acteth "github.com/Oneledger/protocol/action/eth"
+	govact "github.com/Oneledger/protocol/action/governance"
 	ethchain "github.com/Oneledger/protocol/chains/ethereum"
+	"github.com/Oneledger/protocol/consensus"
+	"github.com/Oneledger/protocol/data/governance"
 	"github.com/Oneledger/protocol/data/keys"
 )
 
@@ -296,6 +299,108 @@ func c05Main(args []string) int {
 			func() { defer func() { recover() }(); w.rep.Close() }()
 			rep.Kinds = append(rep.Kinds, kr)
 		}
+	}
+	// A proposal that ended FINALIZE-FAILED (its configuration update no longer validated when it was
+	// finalised) and whose update later becomes admissible again: its executed PROPOSAL_CREATE is
+	// protected by the proposal id, which stays taken in the finalize-failed store
+	if *only == "" || strings.HasPrefix(*only, "GOV") {
+		w := NewWorld(3, 5, 2)
+		gs := w.Genesis()
+		gs.Customize = func(st *consensus.AppState) {
+			// proposal options in the range ValidateProposal demands, so that option updates validate
+			d := governance.ProposalFundDistribution{Validators: 18, FeePool: 18, Burn: 18, ExecutionCost: 18, BountyPool: 10, ProposerReward: 18}
+			mk := func(fdl, vdl int64, pass int) governance.ProposalOption {
+				return governance.ProposalOption{InitialFunding: amt("1000000000"), FundingGoal: amt("10000000000"), FundingDeadline: fdl, VotingDeadline: vdl,
+					PassPercentage: pass, PassedFundDistribution: d, FailedFundDistribution: d, ProposalExecutionCost: "executionCost"}
+			}
+			st.Governance.PropOptions = governance.ProposalOptionSet{ConfigUpdate: mk(10000, 10000, 51), CodeChange: mk(10000, 150000, 60), General: mk(75000, 75000, 67), BountyProgramAddr: "oneledgerBountyProgram"}
+		}
+		rp := NewReplica(gs, ReplicaOpts{NodeVal: w.Vals[0].Val})
+		rp.InitChain()
+		GAS = 1000000
+		n := 0
+		memo := func() string { n++; return fmt.Sprintf("c05gov%d", n) }
+		blk := func(what string, txs ...[]byte) {
+			res := rp.RunBlock(&BlockIn{Txs: txs, Absent: map[int]bool{}})
+			for i, t := range res.Txs {
+				if t.Code != 0 && what != "vote" { // votes after the proposal has passed are refused
+					panic(fmt.Sprintf("c05 gov flow: %s: transaction %d refused: %s", what, i, t.Log))
+				}
+			}
+		}
+		createCfg := func(u Key, id, update, goal string) []byte {
+			return mkTx(action.PROPOSAL_CREATE, govact.CreateProposal{ProposalID: propID(id), ProposalType: governance.ProposalTypeConfigUpdate, Headline: "h", Description: "d " + id,
+				Proposer: u.Addr, InitialFunding: oltAmt("1000000000"), FundingDeadline: 200, FundingGoal: amt(goal), VotingDeadline: 10200, PassPercentage: 51, ConfigUpdate: update}, GAS, memo(), u)
+		}
+		votes := func(ids ...string) [][]byte {
+			txs := [][]byte{}
+			for _, v := range w.Vals {
+				for _, id := range ids {
+					txs = append(txs, txPropVote(v, id, governance.OPIN_POSITIVE, memo()))
+				}
+			}
+			return txs
+		}
+		u0, u1, u2 := w.Users[0], w.Users[1], w.Users[2]
+		blk("warm-up")
+		blk("warm-up")
+		base := createCfg(u1, "c05B", "propOptions.configUpdate.initialFunding:2000000000", "10000000000")
+		kr := c05Kind{Kind: "GOV_CREATE_AFTER_FINALIZE_FAILED", Base: hx(base)}
+		in := &BlockIn{Absent: map[int]bool{}}
+		rp.BeginBlock(in)
+		v0 := rp.View()
+		res := rp.DeliverTx(base)
+		kr.BaseCode = res.Code
+		kr.BaseEffect = len(diffKeys(v0, rp.View())) > 0
+		if r2 := rp.DeliverTx(createCfg(u0, "c05A", "propOptions.configUpdate.fundingGoal:4000000000", "10000000000")); r2.Code != 0 || res.Code != 0 {
+			panic("c05 gov flow: creating the two proposals failed: " + res.Log + r2.Log)
+		}
+		rp.EndBlock()
+		rp.Commit()
+		blk("fund", txPropFund(u2, "c05A", oltAmt("9000000000"), memo()), txPropFund(u2, "c05B", oltAmt("9000000000"), memo()))
+		blk("vote", votes("c05A", "c05B")...)
+		blk("finalise")
+		blk("finalise")
+		blk("finalise")
+		has := func(prefix, id string) bool {
+			_, ok := rp.View()[prefix+string(propID(id))]
+			return ok
+		}
+		if !has("propFinalized", "c05A") || !has("propFinalizeFailed", "c05B") {
+			panic("c05 gov flow: expected c05A finalized and c05B finalize-failed")
+		}
+		// the goal is restored under the options in force (goal 4e9): c05B's update is admissible again
+		blk("restore", createCfg(u2, "c05C", "propOptions.configUpdate.fundingGoal:10000000000", "4000000000"))
+		blk("fund", txPropFund(u0, "c05C", oltAmt("3000000000"), memo()))
+		blk("vote", votes("c05C")...)
+		blk("finalise")
+		blk("finalise")
+		blk("finalise")
+		if !has("propFinalized", "c05C") {
+			panic("c05 gov flow: expected c05C finalized")
+		}
+		if c := rp.CheckTx(createCfg(u1, "c05D", "propOptions.configUpdate.initialFunding:2000000000", "10000000000")); c.Code != 0 {
+			panic("c05 gov flow: the update of c05B is not admissible again: " + c.Log)
+		}
+		subs := append([]labMutant{{"identical", "same", base}}, reencodings(base, r)...)
+		rp.BeginBlock(in)
+		for _, sb := range subs {
+			c := rp.CheckTx(sb.Tx)
+			va := rp.View()
+			d := rp.DeliverTx(sb.Tx)
+			ch := diffKeys(va, rp.View())
+			sr := c05Sub{Name: sb.Name, SameParsed: sameParsed(sb.Tx, base), CheckCode: c.Code, CheckDup: strings.Contains(c.Log, "duplicated tx"),
+				Deliver: d.Code, Effect: len(ch) > 0, Tx: hx(sb.Tx)}
+			if len(ch) > 6 {
+				ch = ch[:6]
+			}
+			sr.Changed = ch
+			kr.Subs = append(kr.Subs, sr)
+		}
+		rp.EndBlock()
+		rp.Commit()
+		rp.Close()
+		rep.Kinds = append(rep.Kinds, kr)
 	}
 	b.WriteString("\n].\nDefinition MM := Eval vm_compute in replay_mismatches 0 cases.\nPrint MM.\n")
 	name := *outDir + "/c05_cases_0.v"
